@@ -303,6 +303,14 @@ class Ctx:
         known = load_known(self.pid)
         os.makedirs(EVIDENCE, exist_ok=True)
         new, seen_known = [], {}
+        # differences in points the statement does not speak about: recorded, never a verdict
+        beyond = [m for m in self.violations if m.get("beyond")]
+        self.violations = [m for m in self.violations if not m.get("beyond")]
+        if beyond:
+            kinds = sorted({m.get("kind", "?") for m in beyond})
+            self.cov["beyond_statement"] = [{"kind": m.get("kind"), "detail": m.get("detail"), "expected": m.get("expected"),
+                                             "actual": m.get("actual")} for m in beyond[:8]]
+            print("NOTE: property=%s pinned behaviour beyond the statement changed (no verdict): %s" % (self.pid, ", ".join(kinds)))
         for m in self.violations:
             k = m.get("key") or hashlib.sha256(json.dumps(m.get("case"), sort_keys=True).encode()).hexdigest()[:16]
             m["key"] = k
@@ -340,6 +348,15 @@ class Ctx:
             "coverage": cov, "assumptions": self.assumptions, "wall_s": round(time.time() - self.t0, 2),
             "violations": len(new), "known_findings": sorted(seen_known),
         }
+        if self.pid == "EXT":
+            # behaviour specified beyond the listed properties: never a verdict on a property
+            edir = os.environ.get("VERIF_EVIDENCE_DIR") or os.path.join(ROOT, "evidence_ext")
+            os.makedirs(edir, exist_ok=True)
+            with open(os.path.join(edir, "EXT.json"), "w") as f:
+                json.dump(ev, f, indent=1)
+            for p in paths:
+                print("NONCONFORMANCE extension-specification replay=%s" % p)
+            return 1 if new else 0
         with open(os.path.join(EVIDENCE, self.pid + ".json"), "w") as f:
             json.dump(ev, f, indent=1)
         for p in paths:
